@@ -323,8 +323,9 @@ SlotClauses(f, c, evs) ==
       exp == { <<p[2], c.scripts[p[1]]>> : p \in { q \in SlotTable(f) : c.scripts[q[1]] # "" } }
       expNames == { x[1] : x \in exp }
       obsNames == { x[1] : x \in obs }
-      \* an EMPTY script embeds zero bytes: a format may write an empty member or omit the slot
-      expNonEmpty == { x \in exp : x[2] # EmptyCid }
+      \* an EMPTY script embeds zero bytes: rpm cannot distinguish an empty scriptlet tag from none and omits it;
+      \* every other format has a member / function per slot, which must be there
+      expNonEmpty == { x \in exp : x[2] # EmptyCid \/ f # "rpm" }
   IN (IF \E x \in expNonEmpty : x[1] \notin obsNames THEN {"C09.slot_populated_iff_configured"} ELSE {})
      \cup (IF \E n \in obsNames : n \notin expNames THEN {"C09.slot_populated_iff_configured"} ELSE {})
      \cup (IF \E x \in obs : x[1] \in expNames /\ x \notin exp THEN {"C09.slot_bytes"} ELSE {})
